@@ -467,6 +467,26 @@ pub fn guard<T>(f: impl FnOnce() -> T) -> Result<T, String> {
 }
 pub fn silence_panics() {
     std::panic::set_hook(Box::new(|_| {}));
+    install_null_logger();
+}
+
+/// A logger at the most verbose level that discards every record: the code under test enters its logging statements and
+/// evaluates their arguments (slices, unwraps, arithmetic inside a `debug!(..)`) exactly as under `RUST_LOG=trace`, so a
+/// panic hidden in a log statement is part of what the checks see. Records are not formatted (the hex dumps of whole
+/// buffers the library logs would make the byte-level checks quadratic).
+pub fn install_null_logger() {
+    struct Null;
+    impl log::Log for Null {
+        fn enabled(&self, _: &log::Metadata) -> bool {
+            true
+        }
+        fn log(&self, _record: &log::Record) {}
+        fn flush(&self) {}
+    }
+    static NULL: Null = Null;
+    if std::env::var_os("VERIF_NO_LOGGER").is_none() && log::set_logger(&NULL).is_ok() {
+        log::set_max_level(log::LevelFilter::Trace);
+    }
 }
 
 /// Coverage-guided campaign (thorough tiers): builds the cargo-fuzz target under harness/fuzz and runs it for a fixed
